@@ -252,10 +252,12 @@ class C11(Check):
             touched = any(getattr(h, 'hid', None) in tainted_ids for _, p in collected for h in p)
             if touched:
                 continue
-            if spec.tainted:
-                # nodes kept alive by an unspecified hook can still bind wildcard values on the way
-                # to a 404: the values handed to a 404 hook are compared only without such hooks
-                sa, sb = (tuple(x[:3] + ([h[:3] for h in x[3]],)) for x in (sa, sb))
+            if spec.tainted and not (sa[2] and sb[2]) and 405 not in (sa[0], sb[0]):
+                # a wildcard node kept alive by an unspecified hook changes the walk that ends in
+                # a 404 (values bound on the way, backtracking past a 404 hook): which 404 hook
+                # answers, and with what, is compared only when no such hook can be around
+                self._bump('oracle-404-skipped-unspecified-hooks')
+                continue
             if sa != sb:
                 bad.append(('wsgi', f'GET /{path}: edited app {sa!r}, rebuilt app {sb!r}'))
             # the property's own description of which hooks fire
